@@ -623,7 +623,6 @@ static int extractGenerator(KSI_CTX *ctx, void *payload, void *generatorCtx, con
 	bool groupHit[2] = {false, false};
 	bool oneOf[2] = {false, false};
 	size_t i;
-	size_t tmplStart = 0;
 	size_t maxOrder = 0;
 	bool firstHit = false;
 	bool lastHit = false;
@@ -664,9 +663,8 @@ static int extractGenerator(KSI_CTX *ctx, void *payload, void *generatorCtx, con
 			tr[tr_len].desc = NULL;
 		}
 
-		for (i = tmplStart; i < template_len; i++) {
+		for (i = 0; i < template_len; i++) {
 			if (tmpl[i].tag != KSI_TLV_getTag(tlv)) continue;
-			if (i == tmplStart && !tmpl[i].multiple) tmplStart++;
 
 			tr[tr_len].desc = tmpl[i].descr;
 
